@@ -504,7 +504,9 @@ class Context:
             # Sort using Python's sort with custom key
             from functools import cmp_to_key
 
-            this._elements.sort(key=cmp_to_key(compare_fn))
+            # A copy is sorted: the comparator may change the array meanwhile,
+            # which list.sort() refuses
+            this._elements[:] = sorted(this._elements, key=cmp_to_key(compare_fn))
             return this
 
         array_prototype.set("sort", JSBoundMethod(array_sort))
